@@ -70,7 +70,7 @@ fn dce_block_with_live(
                                 live.insert(u.clone());
                             }
                             // Keep side effects before the declaration in final order
-                            out.push(ast::Stmt::Expr(v));
+                            out.push(effect_stmt(v));
                         }
                         // Keep declaration without initializer
                         out.push(ast::Stmt::VarDecl {
@@ -95,7 +95,7 @@ fn dce_block_with_live(
                         for u in &used_rhs {
                             live.insert(u.clone());
                         }
-                        out.push(ast::Stmt::Expr(v));
+                        out.push(effect_stmt(v));
                     }
                 }
             }
@@ -116,7 +116,7 @@ fn dce_block_with_live(
                         for u in &used_rhs {
                             live.insert(u.clone());
                         }
-                        out.push(ast::Stmt::Expr(value));
+                        out.push(effect_stmt(value));
                     }
                 }
             }
@@ -593,6 +593,18 @@ fn free_vars_in_block(b: &ast::Block) -> HashSet<String> {
     &used - &declared
 }
 
+// Statement that keeps the evaluation of `v` after its binding was removed. Go only
+// accepts calls as expression statements, so other effectful values are kept as `_ = v`.
+fn effect_stmt(v: ast::Expr) -> ast::Stmt {
+    match v {
+        ast::Expr::Call { .. } | ast::Expr::Block { .. } => ast::Stmt::Expr(v),
+        _ => ast::Stmt::Assignment {
+            name: "_".to_string(),
+            value: v,
+        },
+    }
+}
+
 fn expr_has_side_effects(e: &ast::Expr) -> bool {
     match e {
         ast::Expr::Call { .. } => true,
@@ -605,10 +617,14 @@ fn expr_has_side_effects(e: &ast::Expr) -> bool {
                     .unwrap_or(false)
         }
         ast::Expr::FieldAccess { obj, .. } => expr_has_side_effects(obj),
-        ast::Expr::Index { array, index, .. } => {
-            expr_has_side_effects(array) || expr_has_side_effects(index)
-        }
+        // Indexing can fail at run time (index out of range), so it must not be dropped.
+        ast::Expr::Index { .. } => true,
         ast::Expr::UnaryOp { expr, .. } => expr_has_side_effects(expr),
+        // Integer division by zero fails at run time, so a division is never dead code.
+        ast::Expr::BinaryOp {
+            op: ast::GoBinaryOp::Div,
+            ..
+        } => true,
         ast::Expr::BinaryOp { lhs, rhs, .. } => {
             expr_has_side_effects(lhs) || expr_has_side_effects(rhs)
         }
